@@ -14,12 +14,25 @@
    Properties: after every block, ctrie/cltrie are exactly the leaves the protocol defines for the
    abstract state (LeavesRight), hence the commitment is a function of the abstract state alone:
    independent of how updates were split into blocks.  Commitment(ver) is the protocol formula on
-   both sides of 0.14.0. *)
+   both sides of 0.14.0.
+
+   Read faults.  Applying a block READS the stored tries (the root node of every trie it opens:
+   core/trie2 New -> resolveNode, core/trie newTrieReader; then the nodes on the paths it touches).
+   The property is about the root the node "computes and stores": a block application that meets a
+   failing read may fail as a whole, but it must never SUCCEED on a trie it could not read.
+   ReadFault(f) is the attempt that meets a fault at position f (the storage trie of a written
+   contract, the contracts trie or the classes trie); in the faithful model it is a no-op on
+   everything (FailedUpdateIsNoOp) and the diff can be retried.  Bug = "root-read-fault-as-empty"
+   is the mechanism that can fail: the unreadable trie is taken for an EMPTY one, the block is
+   applied on top of nothing and its nodes overwrite the real ones - LeavesRight / CommitmentRight
+   are violated (expected-violation configuration). *)
 EXTENDS Integers, Sequences, FiniteSets, TLC
 
 CONSTANTS Contracts,   \* ordinary contract addresses
           Sys,         \* system contract (0x1): never deployed explicitly, storage writes deploy it with class "0"
-          Slots, MaxVal, Classes, MaxNonce, Sierra, Compiled, MaxBlocks, MaxDiff
+          Slots, MaxVal, Classes, MaxNonce, Sierra, Compiled, MaxBlocks, MaxDiff,
+          ReadFaults,  \* BOOLEAN: block applications may meet a failing storage read
+          Bug          \* "none" | "root-read-fault-as-empty"
 
 Addrs == Contracts \cup {Sys}
 None == "-"
@@ -85,24 +98,43 @@ Add == /\ blocks < MaxBlocks /\ DiffSize(diff) < MaxDiff
 
 \* ---- applying the block, in the code's order; only touched leaves are rewritten
 Written(a) == \E s \in Slots : diff.writes[a][s] # -1
-EndBlock ==
+\* Apply(emptyS, emptyC, emptyK): the block is applied; emptyS = contracts whose stored storage trie is taken
+\* for empty, emptyC / emptyK = the stored contracts / classes trie is taken for empty (all FALSE / {} in the
+\* faithful model: these parameters exist for the seeded defect only)
+Apply(emptyS, emptyC, emptyK) ==
   LET dep1 == [a \in Addrs |-> IF a \in Contracts /\ diff.deploy[a] # None THEN diff.deploy[a] ELSE deployed[a]]
       dep2 == [a \in Addrs |-> IF a \in Contracts /\ diff.replace[a] # None THEN diff.replace[a] ELSE dep1[a]]
       \* storage writes to the system contract deploy it with class hash 0
       dep3 == [a \in Addrs |-> IF a = Sys /\ Written(a) /\ dep2[a] = None THEN "0" ELSE dep2[a]]
       non1 == [a \in Addrs |-> IF a \in Contracts /\ diff.nonces[a] # -1 THEN diff.nonces[a] ELSE nonce[a]]
       sto1 == [a \in Addrs |-> [s \in Slots |-> IF diff.writes[a][s] # -1 THEN diff.writes[a][s] ELSE store[a][s]]]
+      \* what the implementation hashes for contract a's storage: the stored trie (or nothing) plus the writes
+      stoI == [a \in Addrs |-> [s \in Slots |-> IF diff.writes[a][s] # -1 THEN diff.writes[a][s]
+                                                 ELSE IF a \in emptyS THEN 0 ELSE store[a][s]]]
       touched == {a \in Addrs : (a \in Contracts /\ (diff.deploy[a] # None \/ diff.replace[a] # None \/ diff.nonces[a] # -1))
                                 \/ Written(a)}
   IN
   /\ blocks < MaxBlocks
   /\ blocks' = blocks + 1
-  /\ act' = [name |-> "EndBlock"]
   /\ declared' = [k \in Sierra |-> IF diff.declare[k] # None THEN diff.declare[k] ELSE declared[k]]
-  /\ cltrie' = [k \in Sierra |-> IF diff.declare[k] # None THEN ClassLeaf(diff.declare[k]) ELSE cltrie[k]]
+  /\ cltrie' = [k \in Sierra |-> IF diff.declare[k] # None THEN ClassLeaf(diff.declare[k])
+                                 ELSE IF emptyK THEN NoLeaf ELSE cltrie[k]]
   /\ deployed' = dep3 /\ nonce' = non1 /\ store' = sto1
-  /\ ctrie' = [a \in Addrs |-> IF a \in touched THEN ContractLeaf(dep3[a], StorageRoot(sto1[a]), non1[a]) ELSE ctrie[a]]
+  /\ ctrie' = [a \in Addrs |-> IF a \in touched THEN ContractLeaf(dep3[a], StorageRoot(stoI[a]), non1[a])
+                                ELSE IF emptyC THEN NoLeaf ELSE ctrie[a]]
   /\ diff' = EmptyDiff
+
+EndBlock == Apply({}, FALSE, FALSE) /\ act' = [name |-> "EndBlock"]
+
+\* ---- a block application that meets a failing read
+FaultPos == {a \in Addrs : Written(a)} \cup {"ctrie", "cltrie"}
+ReadFault(f) ==
+  /\ ReadFaults /\ blocks < MaxBlocks /\ diff # EmptyDiff /\ f \in FaultPos
+  /\ IF Bug = "root-read-fault-as-empty"
+     THEN /\ Apply(IF f \in Addrs THEN {f} ELSE {}, f = "ctrie", f = "cltrie")
+          /\ act' = [name |-> "EndBlock"]          \* the defect: the attempt "succeeds"
+     ELSE /\ act' = [name |-> "ReadFault", f |-> f]
+          /\ UNCHANGED <<deployed, nonce, store, declared, ctrie, cltrie, diff, blocks>>
 
 \* a restart of the node between two blocks: new Blockchain / state / trie objects on the same store.
 \* Nothing of the abstract state, of the trie contents or of the commitment may depend on it.
@@ -110,7 +142,7 @@ Restart == /\ diff = EmptyDiff
            /\ act' = [name |-> "Restart"]
            /\ UNCHANGED <<deployed, nonce, store, declared, ctrie, cltrie, diff, blocks>>
 
-Next == Add \/ EndBlock \/ Restart
+Next == Add \/ EndBlock \/ Restart \/ \E f \in Addrs \cup {"ctrie", "cltrie"} : ReadFault(f)
 Spec == Init /\ [][Next]_vars
 
 ----------------------------------------------------------------------------
@@ -137,4 +169,6 @@ VersionsDifferOnlyWithoutClasses ==
      <=> (RootOf(cltrie, Sierra) = Zero /\ RootOf(ctrie, Addrs) # Zero)
 \* (action property) a restart is a no-op on everything the commitment is computed from
 RestartIsNoOp == [][act'.name = "Restart" => UNCHANGED <<deployed, nonce, store, declared, ctrie, cltrie>>]_vars
+\* (action property) a block application that failed on a read changed nothing; its diff can be retried
+FailedUpdateIsNoOp == [][act'.name = "ReadFault" => UNCHANGED <<deployed, nonce, store, declared, ctrie, cltrie, diff, blocks>>]_vars
 =============================================================================
